@@ -11,6 +11,7 @@ def build(u):
     u.ghost_callees["m:new_block"] = "Tracked(h)"
     u.raw("use vstd::prelude::*;\nuse ::std::sync::Arc;\nverus! {\n")
     u.env("prelude.rs")
+    u.env("std_extra.rs")
     u.canary_decls()
     u.env("anyhow.rs")
     u.env("hooks_env.rs")
